@@ -57,10 +57,12 @@ class CtlPipeline(Pipeline):
 
 def gen_image(rnd):
     """A code-like image with known instruction boundaries; returns (snapshot, start, end, executed instruction addresses)."""
-    start = rnd.choice((30000, 40000, 50000))
+    start = rnd.choice((30000, 40000, 50000, 30003, 40005))
     snap = [0] * 65536
     a = start
     executed = []
+    extra = []          # (in gen_image.extra) mapped addresses that are not instruction starts of the straight-line reading, or lie outside the range
+    gen_image.cut_executed = False
     for region in range(rnd.randrange(2, 6)):
         kind = rnd.choice(('code', 'code', 'data', 'text', 'zeros'))
         if kind == 'code':
@@ -72,7 +74,13 @@ def gen_image(rnd):
                 for x in ins:
                     snap[a] = rnd.randrange(256) if x is None else x
                     a += 1
-            if rnd.random() < 0.7:
+            if run and rnd.random() < 0.3:
+                # JP nn whose operand low byte is RET, and a later jump into that operand byte: both are executed
+                executed.append(a)
+                snap[a:a + 3] = [0xC3, 0xC9, rnd.choice((0x75, 0x9C))]
+                extra.append(a + 1)
+                a += 3
+            elif rnd.random() < 0.7:
                 if run:
                     executed.append(a)
                 snap[a] = 0xC9
@@ -87,20 +95,30 @@ def gen_image(rnd):
                 a += 1
         else:
             a += rnd.randrange(1, 10)
-    if rnd.random() < 0.4:
+    if rnd.random() < 0.5:
         # the range ends in the middle of an instruction (sometimes directly after executed code that does not end with RET/JP/JR)
         if rnd.random() < 0.5:
             for k in range(rnd.randrange(1, 4)):
-                ins = rnd.choice(([0x00], [0x3E, 7], [0xAF], [0x06, 1]))
+                ins = rnd.choice(([0x00], [0x3E, 7], [0xAF], [0x06, 1], [0xC9]))
                 executed.append(a)
                 for x in ins:
                     snap[a] = x
                     a += 1
         ins = rnd.choice(([0xC3, 0x12], [0xCD, 0x00], [0x01], [0xDD, 0x36, 0x01], [0xED], [0xDD, 0xCB, 0x02], [0x18]))
+        if executed and executed[-1] < a and rnd.random() < 0.6:
+            # the instruction cut off by END was executed too (the trace does not know about END)
+            executed.append(a)
+            gen_image.cut_executed = True
         for x in ins:
             snap[a] = x
             a += 1
         snap[a] = rnd.choice((0, 0x41, 0xC9))          # the byte at END itself (not part of the range)
+    # a real trace also holds addresses outside the range, some in the same group of eight as START or END
+    for x in (start - 1, start - 3, a, a + 1, a + 5, start - 200, a + 300):
+        if rnd.random() < 0.5 and 0 <= x < 65536 and not (start <= x < a):
+            snap[x] = snap[x] or 0xC9
+            extra.append(x)
+    gen_image.extra = extra
     return snap, start, a, executed
 
 def run(ctx, repo):
@@ -115,23 +133,26 @@ def run(ctx, repo):
         snap, start, end, executed = gen_image(rnd)
         mode = ('none', 'z80map', 'specemu', 'text$', 'text0x')[k % 5]
         code_map = None
+        mapped = sorted(set(executed) | set(gen_image.extra))
+        cut_executed = gen_image.cut_executed and mode != 'none'
+        inside = [a for a in mapped if start <= a < end]
         if mode != 'none' and executed:
             code_map = 'map.' + mode
             P.binfiles.clear(); P.textfiles.clear()
             if mode == 'z80map':
                 data = bytearray(8192)
-                for a in executed:
+                for a in mapped:
                     data[a // 8] |= 1 << (a % 8)
                 P.binfiles[code_map] = data
             elif mode == 'specemu':
                 data = bytearray(65536)
-                for a in executed:
+                for a in mapped:
                     data[a] = 1
                 P.binfiles[code_map] = data
             elif mode == 'text$':
-                P.textfiles[code_map] = ['$%04X\\n' % a for a in executed]
+                P.textfiles[code_map] = ['$%04X\\n' % a for a in mapped]
             else:
-                P.textfiles[code_map] = ['0x%04x,1\\n' % a for a in executed]
+                P.textfiles[code_map] = ['0x%04x,1\\n' % a for a in mapped]
         cfg = Rec(handle_rst=0, text_chars=''.join(chr(c) for c in range(32, 127) if chr(c) not in '#^`'), text_min_length_code=rnd.choice((12, 3)), text_min_length_data=rnd.choice((3, 8)), words=())
         name = 'image %d (%s map, %d..%d, %d executed instructions)' % (k, mode, start, end, len(executed) if code_map else 0)
         try:
@@ -154,13 +175,14 @@ def run(ctx, repo):
         if any(a < start or a > end for a in keys):
             problems.append('directive outside [START, END]: %s' % [a for a in keys if a < start or a > end][:3])
         if code_map:
-            for a in executed:
+            for a in inside:
                 blk = max(x for x in keys if x <= a)
                 if ctls[blk] != 'c':
                     problems.append('executed address %d lies in a `%s` block (at %d)' % (a, ctls[blk], blk))
                     break
-        if not problems:
-            # the generated file through sna2skool and skool2bin
+        if not problems and not cut_executed:
+            # the generated file through sna2skool and skool2bin (not when the trace ran into the instruction END cuts off: it must
+            # lie in a code block, and sna2skool cannot but decode it beyond END)
             try:
                 P.lines = []
                 opts = Rec(handle_rst=0, comments=0, ctl_hex=0)
